@@ -70,6 +70,7 @@ def project(log, desc, layer="L0"):
     parked = False
     nenq = 0
     sec = None
+    decr_open = {}
     last_seen = None
     read_pos = 0
     ambiguous_from = None
@@ -155,6 +156,11 @@ def project(log, desc, layer="L0"):
                     sec["decrs"] = []
                 sec["incr"] += 1
                 continue
+            decr_open[t] = True
+        elif k == "rel" and e[2] == A and decr_open.get(t):
+            # `self.value -= 1` runs between the acquisition and this release and nothing can be scheduled between the
+            # write and the release, so the release is where the decrement becomes visible to the unlocked reader
+            decr_open[t] = False
             st = ctx.get(t) or []
             if not st:
                 raise ProjError("decrement outside any delegate completion (log %d)" % i)
